@@ -39,7 +39,10 @@ def batch(rng, schema, n, start, cat_pool=None):
         elif kind == "part":
             df[name] = np.array([rng.choice([0, 1, 2]) for _ in range(n)], dtype="int64")
         else:
-            df[name] = gen_column(rng, kind, n, rng.choice(["none", "some", "some", "all", "first"])).values \
+            # the first batch fixes the stored type of object columns by inference from a non-null value, so
+            # an all-null first batch of text is not "the same dtype" as later text (observed: TypeError, refused)
+            pats = ["none", "some", "some", "first"] + (["all"] if (start > 0 or kind not in ("str", "bytes")) else [])
+            df[name] = gen_column(rng, kind, n, rng.choice(pats)).values \
                 if kind not in ("Int64",) else gen_column(rng, kind, n, rng.choice(["none", "some"]))
     return df
 
